@@ -66,13 +66,13 @@ def strategy(tp):
         # ["in", k]: k-th address of the generated msrc acl; ["any", k]: 127.0.0.k
         "src": st.one_of(st.integers(0, 5).map(lambda k: ["in", k]), st.integers(1, NSRC).map(lambda k: ["any", k])),
         # ["listed", k]: k-th action named by the cachemgr_passwd lines (any action when none is named); ["name", a]
-        "action": st.one_of(st.integers(0, 11).map(lambda k: ["listed", k]), st.sampled_from(ACTION_NAMES).map(lambda a: ["name", a]),
+        "action": st.one_of(st.integers(0, 11).map(lambda k: ["listed", k]), st.integers(0, 11).map(lambda k: ["listed", k]), st.sampled_from(ACTION_NAMES).map(lambda a: ["name", a]),
                             st.sampled_from(["info", "menu", "config", "counters", "offline_toggle", "shutdown"]).map(lambda a: ["name", a])),
         "name_form": st.sampled_from(["plain", "plain", "plain", "plain", "plain", "plain", "plain", "upper", "pct-first", "pct-all", "unknown", "trailing-slash"]),
         "url_form": st.sampled_from(["origin", "origin", "origin", "abs-visible", "abs-visible", "abs-loop", "origin-pct-prefix"]),
         "suffix": st.sampled_from(["", "", "", "?x=1", "#frag", "?"]),
         # how the password is supplied: [kind, variant]
-        "auth": st.one_of(st.just(["none", ""]),
+        "auth": st.one_of(st.just(["none", ""]), st.just(["basic", "right"]), st.just(["basic", "right"]),
                           st.tuples(st.sampled_from(["basic", "basic", "basic", "basic", "basic", "basic-nouser", "basic-extra-colon", "basic-lower-scheme", "url-at", "url-query"]),
                                     st.sampled_from(["right", "right", "right", "right", "wrong", "right+x", "right-1", "upper", "empty", "disable", "none", "other"])).map(list)),
     })
